@@ -39,6 +39,15 @@ type ReflInput struct {
 	DefLog bool `json:"deflog,omitempty"`
 }
 
+// zeroDeepEnv: well-formed Unmarshal output inside 1100 single-element envelopes
+var zeroDeepEnv = func() []any {
+	v := []any{"AND", "a"}
+	for d := 0; d < 1100; d++ {
+		v = []any{v}
+	}
+	return v
+}()
+
 var reflLiveLogger = log.New(&bytes.Buffer{}, "live ", 0)
 
 // withDefLog repeats every case that calls a logging-related method with DefLog set.
@@ -194,6 +203,7 @@ func argVariants(t reflect.Type) []reflect.Value {
 			add(stk.Condition{})
 			add(stk.And().Push(stk.Cond("", stk.Ne, "x")))
 			add([]any{"AND", "a"})
+			add(zeroDeepEnv)                          // the same, inside 1100 single-element envelopes
 			add([]any{"CONDITION", "k", stk.Eq, "v"}) // the record Condition.Unmarshal produces
 			for _, rn := range []string{"maps", "maps-twin", "cond-maps", "cond-maps-twin"} {
 				rv, _ := reflRecv(rn)
@@ -649,6 +659,31 @@ func runRefl(raw json.RawMessage) (res *Result, err error) {
 				"Marshal": true, "Init": true, "String": false}
 			if in.Recv == "cond-init" || in.Recv == "cond-reinit" || in.Recv == "other-handle" || in.Recv == "other-handle-cond" {
 				break // an initialised instance: only panic-freedom is required
+			}
+			// the Marshal exception: well-formed input brings a zero / freed Stack to life
+			if c.Method == "Marshal" && isStack && len(args) == 1 && args[0].IsValid() {
+				var arg any = args[0].Interface()
+				if vs, isVariadic := arg.([]any); isVariadic && len(vs) == 1 {
+					if inner, isList := vs[0].([]any); isList {
+						arg = inner // Marshal(x): the variadic list holds the one argument
+					}
+				}
+				if l, ok := arg.([]any); ok && len(l) > 0 {
+					inner := l
+					for len(inner) == 1 {
+						n, isList := inner[0].([]any)
+						if !isList {
+							break
+						}
+						inner = n
+					}
+					if len(inner) == 2 && inner[0] == "AND" && inner[1] == "a" {
+						got := pv.Elem().Interface().(stk.Stack)
+						if !got.IsInit() || got.Len() != 1 || got.Kind() != "AND" {
+							problems = append(problems, fmt.Sprintf("Marshal of well-formed input into a zero / freed Stack: IsInit %v, Len %d, Kind %q afterwards (want true, 1, AND)", got.IsInit(), got.Len(), got.Kind()))
+						}
+					}
+				}
 			}
 			if !skip[c.Method] {
 				for i, o := range out {
